@@ -248,6 +248,8 @@ def gen_spec(rng, i, host, long_len=0, no_collide=False):
     elif t == "cmdargs":
         tup = rng.random() < 0.5
         sp["arg"] = [gen_word(rng), gen_word(rng)] if tup else gen_word(rng)
+        if rng.random() < 0.3:
+            sp["arg"] = ["", gen_word(rng)] if tup else ""
         sp["cmd"] = ("/bin/echo %s %s" if tup else "/bin/ls -l %s") + " u%d" % uniq()
         sp["save_as"] = gen_saveas(rng, rng.choice(["none", "file"]), "S%d" % i)
         sp["out"] = cmd_output(rng)
@@ -258,11 +260,18 @@ def gen_spec(rng, i, host, long_len=0, no_collide=False):
         sp["cmd"] = ("/bin/echo %s %s" if tup else "/bin/cat %s") + " u%d" % uniq()
         sp["elems"] = [{"arg": ([gen_word(rng), "v%d" % j] if tup else "%s%d" % (gen_word(rng), j)),
                         "out": cmd_output(rng), "fail": rng.random() < 0.2} for j in range(n)]
+        if rng.random() < 0.35:
+            # FALSY BUT NOT-NONE argument values (and tuples holding them): they must load as they were persisted
+            pool = ([[0, ""], ["", False], [0.0, 0], [False, 0.0], ["", ""]] if tup else
+                    [0, "", False, 0.0, {"list": []}, {"list": [0, ""]}, {"list": [False]}])
+            # (one per spec: '' and [], 0 and [0, ''] ... mangle to the same file name, which is the collision finding's subject)
+            rng.choice(sp["elems"])["arg"] = rng.choice(pool)
     elif t == "ccmd":
         n = rng.choice([1, 2, 3])
         sp["cmd"] = "echo %s" + " u%d" % uniq()
         sp["elems"] = [{"image": rng.choice(["img", "registry/é:1", ""]), "engine": rng.choice(["env", "test"]),
-                        "cid": "c%d_%d%s" % (i, j, gen_word(rng)), "args": [gen_word(rng)], "out": cmd_output(rng),
+                        "cid": "c%d_%d%s" % (i, j, gen_word(rng)),
+                        "args": [rng.choice([gen_word(rng), gen_word(rng), 0, "", False, 0.0])], "out": cmd_output(rng),
                         "fail": rng.random() < 0.15} for j in range(n)]
     elif t == "cfile":
         n = rng.choice([1, 2, 3])
@@ -974,7 +983,8 @@ class World(object):
             impls["_a_" + sp["name"]] = arg_ds
             return command_with_args(sp["cmd"], arg_ds, save_as=sp["save_as"], context=Ctx)
         if t == "foreach":
-            args = [tuple(e["arg"]) if isinstance(e["arg"], list) else e["arg"] for e in sp["elems"]]
+            args = [tuple(e["arg"]) if isinstance(e["arg"], list) else
+                    (list(e["arg"]["list"]) if isinstance(e["arg"], dict) else e["arg"]) for e in sp["elems"]]
             for e, a in zip(sp["elems"], args):
                 self.outputs[self.shlex_key(sp["cmd"] % a)] = ("fail", "boom-" + sp["name"]) if e["fail"] else ("ok", 0, e["out"])
                 if e.get("slow"):
@@ -1122,12 +1132,21 @@ def expected_location(kind, relative_path, save_as):
     return pre + "/" + loc if pre else loc
 
 
+def _scalar(x):
+    """one argument value: a str is itself; any other JSON scalar (0, False, 0.0, ...) is an opaque token carrying its
+    JSON text, so that 0, '0', False, 0.0 and '' all stay distinct (and distinct from None)"""
+    return x if isinstance(x, str) else "\x01" + json.dumps(x)
+
+
 def canon_args(a):
+    """exact: None, '', 0, [] and () are five... four different things (tuple and list are identified: JSON has no tuples)"""
     if a is None:
         return "!"
     if isinstance(a, str):
         return "s:" + enc(a)
-    return "l:" + ";".join(enc(x) for x in a)
+    if isinstance(a, (list, tuple)):
+        return "l:" + ";".join(enc(_scalar(x)) for x in a)
+    return "s:" + enc(_scalar(a))
 
 
 def opt(s):
@@ -1939,7 +1958,7 @@ def stream_saveas(chk, n):
         chk.case(("norm", f, s), bool(s))
         chk.count("saveas:" + f)
         # documented: a relative path, leading '/' removed (directory form: '/' appended; commands: both ends)
-        if (got or None) != (want or None):
+        if got != want:
             chk.failure("factory %s normalised save_as %r to %r, documented rule gives %r" % (f, s, got, want),
                         {"op": "norm", "factory": f, "save_as": s})
     model = run_driver("C11", lines)
@@ -2201,9 +2220,12 @@ def run(chk):
     logging.disable(logging.CRITICAL)
     rng = chk.rng
     quick = chk.tier == "quick"
-    n_worlds = 200 if quick else 4000
+    n_worlds = 200 if quick else 1600
     n_text = 600 if quick else 20000
-    chk.rule = ("archives of 2-6 specs over every spec factory / provider kind (text, raw, first_file, glob, foreach_collect, "
+    chk.rule = ("[sizes: quick 200 generic archives + 40-120 of each special kind; thorough 1600 generic + 600-1200 of each special "
+                "kind (cut from 4000 / 1500-3000 so that thorough runs in about 45 minutes)] command arguments include falsy non-None values "
+                "(0, '', False, 0.0, [], tuples and lists holding them), compared exactly; "
+                "archives of 2-6 specs over every spec factory / provider kind (text, raw, first_file, glob, foreach_collect, "
                 "command, command_with_args, foreach_execute, container command/file, datasource single/multi, failing "
                 "datasources and failing commands), every save_as form with and without leading slashes, contents from a "
                 "Unicode generator (empty file, only-newline file, empty lines anywhere, U+000B/000C/001C-001E/0085/2028/2029, "
@@ -2242,7 +2264,7 @@ def run(chk):
     stream_names(chk, 400 if quick else 20000)
     stream_json(chk, 300 if quick else 20000)
     stream_big_raw(chk, [-1, 0, 1, 4096])
-    stream_filter_budget(chk, 40 if quick else 1500)
+    stream_filter_budget(chk, 40 if quick else 600)
 
     def fail(desc_, case, finding):
         chk.failure(desc_, case, finding=finding)
@@ -2285,7 +2307,7 @@ def run(chk):
             chk.sample({"archive": [dict((k, v) for k, v in sp.items() if k in ("t", "save_as", "cmd", "pattern")) for sp in desc["specs"]],
                         "host": desc["host"], "corruptions": [[c["cls"] for c in p] for p in pats]})
     # ---- archives whose locations carry dot patterns that are no parent references: everything persisted must load
-    n_dot = 50 if quick else 1500
+    n_dot = 50 if quick else 600
     for wi in range(n_dot):
         desc = gen_dot_world(rng, 200000 + wi)
         pats = gen_patterns(rng, len(desc["specs"]), 1)
@@ -2298,8 +2320,8 @@ def run(chk):
             chk.sample({"dot-name archive": [dict((k, v) for k, v in sp.items() if k in ("t", "save_as", "cmd", "pattern")) for sp in desc["specs"]]})
 
     # ---- value types beyond the stock ones + second generation; specs collected through symbolic links
-    for tag, gen, n_ in (("kinds", gen_kind_world, 40 if quick else 1500), ("links", gen_link_world, 30 if quick else 1500),
-                         ("errs", gen_errs_world, 60 if quick else 2000), ("surr", gen_surr_world, 50 if quick else 2000)):
+    for tag, gen, n_ in (("kinds", gen_kind_world, 40 if quick else 600), ("links", gen_link_world, 30 if quick else 600),
+                         ("errs", gen_errs_world, 60 if quick else 800), ("surr", gen_surr_world, 50 if quick else 800)):
         for wi in range(n_):
             desc = gen(rng, {"kinds": 300000, "links": 400000, "errs": 500000, "surr": 600000}[tag] + wi)
             pats = gen_patterns(rng, len(desc["specs"]), 1)
@@ -2313,7 +2335,7 @@ def run(chk):
                                                for sp in desc["specs"]]})
 
     # ---- failure-frame archives: failing writers next to successful ones, shared destinations, run_all
-    n_frame = 120 if quick else 3000
+    n_frame = 120 if quick else 1200
     for wi in range(n_frame):
         desc = gen_frame_world(rng, 100000 + wi)
         pats = gen_patterns(rng, len(desc["specs"]), 1)
@@ -2378,7 +2400,7 @@ def replay(data):
                "c": lambda: simple_command("/bin/true", save_as=s)}[f]().save_as
         want = user_saveas_rule({"f": "file", "d": "glob", "c": "cmd"}[f], s)
         print("save_as", repr(s), "->", repr(got), "documented", repr(want))
-        bad = (got or None) != (want or None)
+        bad = got != want
     else:
         pats = [c["pattern"]] if "pattern" in c else []
         for attempt in range(6 if c["desc"].get("pool") else 1):     # thread timing: a pooled case may need a few tries
